@@ -56,7 +56,8 @@ HEADLINE = ("TwistedProps.C58.no_rejected_event_partial / at_most_one_connection
 RULE = ("histories over the event alphabet {start, stop, when:-/0/1/2, csucc:<hook outcome>, cfail, prepok, prepfail, "
         "drop:0/1, drop:<i>:<handler program> (the application protocol's connectionLost calls whenConnected/startService/"
         "stopService and/or raises an Exception or BaseException), stop!/when:k! (consumer callback raises), "
-        "stop^/when:k^ (consumer callback calls startService), adv:t}: "
+        "stop^/when:k^ (consumer callback calls startService), adv:t; a plain stop consumer's callback returns an unfired "
+        "Deferred of its own and records the value it was fired with}: "
         "breadth-first over the REAL service with state hashing (every event from every distinct "
         "reached snapshot, depth 7 quick / 9 thorough, capped at 600 / 6000 distinct snapshots; three alphabets: no hook, "
         "prepareConnection hook, no hook + connectionLost-handler programs) + random long "
